@@ -1,4 +1,5 @@
 import Driver.Proto
+import Driver.Large
 import BedVerif.Spec.Lapper
 /-!
 Driver handlers for C02, C11, C16–C20.
@@ -109,6 +110,10 @@ def insertedOf (ops : List (Op Nat)) : List (Iv Nat) := ops.filterMap (fun | .in
 
 /-! ## C16 -/
 def handleC16 (inp obs : List String) : Verdict :=
+  -- large histories (> Large.threshold intervals): spec only, near-linear time (Driver/Large.lean)
+  match Large.c16? false inp obs with
+  | some v => v
+  | none =>
   let parsed := (do let h ← pHist; let qs ← many pQ; pure (h, qs)).run inp
   let pobs : Option (Option (List (Nat × Nat)) × List String) := (do
     match (← peek?) with
@@ -157,6 +162,10 @@ def seekAllC (s : Lapper Nat) : List (Nat × Nat) → Nat → List (List (Iv Nat
   | (qs, qe) :: rest, c => let r := s.seek qs qe c; (r.1, r.2) :: seekAllC s rest r.2
 
 def handleC17 (inp obs : List String) : Verdict :=
+  -- large histories (> Large.threshold intervals): spec only, near-linear time (Driver/Large.lean)
+  match Large.c17? false inp obs with
+  | some v => v
+  | none =>
   let parsed := (do let h ← pHist; let qs ← many pQ; pure (h, qs)).run inp
   let pobs : Option (Option (List (List (Iv Nat) × List (Iv Nat))) × List String) := (do
     match (← peek?) with
